@@ -200,10 +200,13 @@ func signed(e int, r *Rand) string {
 // (and a few shorter) decimal mantissas w such that the exact midpoint between two adjacent
 // floats lies between w*10^e and (w+1)*10^e: inputs at relative distance <~1e-19 from a
 // rounding boundary, through exactly that table row.
-func W6Rows(perRow int, seed int64, sink Sink) {
+func W6Rows(perRow int, seed int64, sink Sink, keep ...func(int) bool) {
 	c := &h.Case{Family: "W6b"}
 	c.DescFn = func(c *h.Case) string { return fmt.Sprintf("row e=%d case %d (decimal just below/above a float midpoint)", c.P[0], c.P[1]) }
 	for e := -348; e <= 347; e++ {
+		if len(keep) > 0 && keep[0] != nil && !keep[0](e+348) {
+			continue
+		}
 		r := NewRand(seed, uint64(e+1000))
 		ten := new(big.Int).Exp(big.NewInt(10), big.NewInt(int64(iabs(e))), nil)
 		for i := 0; i < perRow; i++ {
@@ -309,12 +312,15 @@ func RandFloat(r *Rand) float64 {
 // W6Generic: random floats x midpoint expansion truncated to the lengths above x
 // {exact, +1, -1 in the last place} x spellings x sign; shortest round-trip spellings;
 // exact midpoints with tails beyond the 800-digit limit.
-func W6Generic(nfloats int, allSpellings bool, seed int64, sink Sink) {
+func W6Generic(nfloats int, allSpellings bool, seed int64, sink Sink, keep ...func(int) bool) {
 	c := &h.Case{Family: "W6c"}
 	c.DescFn = func(c *h.Case) string {
 		return fmt.Sprintf("float #%d (bits %#x) variant %d", c.P[0], uint64(c.P[1]), c.P[2])
 	}
 	for i := 0; i < nfloats; i++ {
+		if len(keep) > 0 && keep[0] != nil && !keep[0](i) {
+			continue
+		}
 		r := NewRand(seed, uint64(i)+5000000)
 		f := RandFloat(r)
 		variant := 0
@@ -376,10 +382,13 @@ func W6Generic(nfloats int, allSpellings bool, seed int64, sink Sink) {
 
 // W6Exponents: every exponent -400..400 with random mantissas, a quarter below 2^53
 // (exact-arithmetic tier and its 10^22 / 10^37 limits).
-func W6Exponents(perExp int, seed int64, sink Sink) {
+func W6Exponents(perExp int, seed int64, sink Sink, keep ...func(int) bool) {
 	c := &h.Case{Family: "W6e"}
 	c.DescFn = func(c *h.Case) string { return fmt.Sprintf("exponent %d mantissa case %d", c.P[0], c.P[1]) }
 	for e := -400; e <= 400; e++ {
+		if len(keep) > 0 && keep[0] != nil && !keep[0](e+400) {
+			continue
+		}
 		r := NewRand(seed, uint64(e+2000))
 		for i := 0; i < perExp; i++ {
 			var m string
